@@ -148,7 +148,8 @@ func checks() map[string]*Check {
 	app("C03", RunSpec{Scen: "w2.deposed", Quick: 24, Thorough: 600}, RunSpec{Scen: "w2.bounce", Quick: 16, Thorough: 400}, RunSpec{Scen: "w2.takeover", Quick: 16, Thorough: 400})
 	app("C04", RunSpec{Scen: "w2.exacthalf", Quick: 16, Thorough: 400}, RunSpec{Scen: "w2.acklose", Quick: 24, Thorough: 600})
 	app("C05", RunSpec{Scen: "w2.deposedread", Params: "opcap=2000", Quick: 24, Thorough: 600}, RunSpec{Scen: "w2.staleround", Params: "opcap=2000", Quick: 24, Thorough: 600},
-		RunSpec{Scen: "w2.freshread", Params: "opcap=4000,applyin=300", Quick: 16, Thorough: 400}, RunSpec{Scen: "w1", Params: "crash=1,reads=1,applyin=400,voters=3", Quick: 24, Thorough: 600})
+		RunSpec{Scen: "w2.freshread", Params: "opcap=4000,applyin=300", Quick: 16, Thorough: 400}, RunSpec{Scen: "w2.freshread", Params: "opcap=4000,applyin=300,voters=1", Quick: 8, Thorough: 200},
+		RunSpec{Scen: "w1", Params: "crash=1,reads=1,applyin=400,voters=3", Quick: 24, Thorough: 600}, RunSpec{Scen: "w1", Params: "crash=1,reads=1,voters=1", Quick: 8, Thorough: 200})
 	app("C06", RunSpec{Scen: "w2.takeover", Quick: 24, Thorough: 600})
 	app("C07", RunSpec{Scen: "w2.takeover", Quick: 24, Thorough: 600}, RunSpec{Scen: "w2.figure8", Quick: 24, Thorough: 600}, RunSpec{Scen: "w2.acklose", Quick: 16, Thorough: 400})
 	app("C08", RunSpec{Scen: "w2.votes", Quick: 24, Thorough: 600})
@@ -251,6 +252,20 @@ func checks() map[string]*Check {
 		NT:     func(r *Result) bool { return cnt(r, "c15.quiesce_ok")+cnt(r, "codec.e2e_runs")+cnt(r, "puppet.install_handler_waited") > 0 },
 		Rule:   "bounded-progress restatement, counted in protocol steps seen by the network (not seconds): after the heal of a fault schedule, (a) within 40 candidacy rounds per running voter a leader exists that then completes 20 heartbeat rounds unchallenged, (b) every running member reaches that leader's applied index within 300 completed exchanges on its link (log repair or snapshots below and above the chunk size), (c) a fresh write is acknowledged within 100 heartbeat exchanges. A wall-clock watchdog firing first is inconclusive. Non-trivial: the quiesce phase completed after a non-empty fault schedule",
 		Assume: append([]string{"'eventually' is restated as a step bound; no finite run decides the unbounded statement"}, clusterAssume...)})
+
+	add(&Check{ID: "C09", Level: "exploration", Props: []string{"C09", "C01", "C02", "C07"},
+		Runs: []RunSpec{
+			{Scen: "w2.members", Quick: 64, Thorough: 2000},
+			{Scen: "w2.members", Params: "voters=1", Quick: 8, Thorough: 200},
+			{Scen: "w2.members", Params: "voters=4,snapshots=1", Quick: 16, Thorough: 400},
+			{Scen: "w2.memberlag", Quick: 12, Thorough: 200},
+			{Scen: "w2.removeadd", Quick: 24, Thorough: 600},
+			{Scen: "w2.nvquorum", Quick: 12, Thorough: 300},
+			{Scen: "w2.deposedread", Params: "opcap=2000", Quick: 8, Thorough: 200},
+		},
+		NT:     func(r *Result) bool { return cnt(r, "c09.election_quorum_checks") > 0 && (cnt(r, "c09.commit_majority_checks") > 0 || cnt(r, "c09.cfg_vs_log_checks") > 0) },
+		Rule:   "random schedules of membership requests (add non-voter, promote, add voter directly, remove follower, remove leader, back-to-back without waiting, to any node, with retries) from 1-4 initial voters interleaved with partitions and crashes, plus choreographies: membership-lag split (two additions the old followers have not learnt, then a partition), remove-then-add without waiting, leader removing itself while partitioned, non-voter-only quorums for elections / commitment / reads. Oracles: C01, C02, C07 unchanged; reported configuration = own log entry at that index; successful futures carry a committed configuration containing the change that is still committed at the end; every election is backed by delivered votes of a majority of the VOTERS of the winner's configuration; every commit is backed by a majority of the voters of a configuration that leader can have been using. Requests that would leave no voter at all are not generated",
+		Assume: clusterAssume})
 
 	storeAssume := []string{
 		"crash model: process death — every completed write(2) persists, in order; images are synthesised by replaying the strace-recorded syscalls (self-validated: the full replay must be byte-identical to the directory the workload left)",
